@@ -587,7 +587,7 @@ func TestVerifC15(t *testing.T) {
 
 	nScen, maxOps := 260, 70
 	if VThorough() {
-		nScen, maxOps = 2600, 320
+		nScen, maxOps = 5000, 320
 	}
 	nScen = VEnvInt("VERIF_C15_SCENARIOS", nScen)
 	for i := 0; i < nScen; i++ {
